@@ -43,6 +43,8 @@ def build_chain(cs, tier):
         h.sess.close()
     else:
         cfg = g.cfg(index=cs)
+        if cs % 3 == 2:
+            cfg = cfg.with_extra(g.vd_extras(bool(cfg.joliet), cfg.xa))
         h = common.History(cfg, cs, rng.choice(['std', 'grow', 'links', 'names']), max_size=5000)
         h.extend(rng.choice([6, 14, 25]))
         if rng.random() < 0.6:
@@ -132,6 +134,12 @@ def run_chain(cfg, ops0, gens_ops, seed, counters, ngen=None, record=None):
         counters['generations_checked'] = counters.get('generations_checked', 0) + 1
         for k, d in common.compare_views(s3.model, s3.iso):
             vio.append({'key': k, 'detail': 'generation %d: %s' % (gi + 1, d)})
+        if cfg.extra:
+            # nothing edits the volume-descriptor fields: they must survive every generation
+            from harness.indep import ecma119
+            from harness.props import c03
+            for v in c03.check_vd_fields(ecma119.decode(data2), cfg, counters):
+                vio.append({'key': v['key'], 'detail': 'generation %d: %s' % (gi + 1, v['detail'])})
         still = untouched_before & set(s3.model.contents)
         counters['untouched_files_verified'] = counters.get('untouched_files_verified', 0) + len(still)
         s3.close()
